@@ -66,3 +66,44 @@ def competitions_of(repo: Repo, cls: str, method: str, floor: int):
             f"(while not H.is_empty(): p = H.remove()), expected at least {floor}"
         )
     return w, comps
+
+
+def check_model_premises(rep: Rep, repo: Repo, pre: str = "PREMISE-", node_fields=None) -> None:
+    """Premises every model rule relies on (see rules_premise)."""
+    from .rules_premise import check_constants, check_node_defaults, check_transparent_properties
+
+    n = check_transparent_properties(rep, repo, pre)
+    if n < 70:
+        raise AnalysisError(f"only {n} property accessors found (expected at least 70)")
+    check_constants(rep, repo, pre)
+    check_node_defaults(rep, repo, pre, fields=node_fields)
+
+
+def check_fresh_graph(rep: Rep, w: Walker, first_seq: int, pre: str = "") -> None:
+    """fit builds a NEW training graph from its arguments, unconditionally, before anything uses it."""
+    G = ("attr", ("self",), "subgraph")
+    st = [e for e in w.events if e.kind == "store" and e.target == G]
+    ok = False
+    detail = f"{len(st)} assignment(s) to self.subgraph"
+    if len(st) == 1:
+        e = st[0]
+        v = e.value
+        args = dict(zip(["X", "Y", "I"], v[2])) if v[0] == "new" else {}
+        if v[0] == "new":
+            args.update(dict(v[3]))
+        from .rules_premise import raise_conditions
+        from .ir import facts, mk_not
+        rc = raise_conditions(w)
+        uncond = all(mk_not(f) in rc for f in facts(e.guards))
+        ok = v[0] == "new" and v[1] in GRAPH_CLASSES and args.get("X") == ("param", "X_train") \
+            and args.get("Y") in (("param", "Y_train"), None) and e.seq < first_seq and uncond and not e.loops
+        if v[0] != "new":
+            detail = f"self.subgraph receives '{show_term(v)[:80]}', not a new graph built from this call's arguments"
+        elif not uncond or e.loops:
+            detail = "the training graph is only rebuilt under a condition: a second fit may reuse stale state"
+    rep.fn(pre + "FIT-fresh", w.entry, "fit builds a new training graph from (X_train, Y_train, I_train)", ok, detail)
+
+
+def show_term(t):
+    from .ir import show
+    return show(t)
